@@ -3,34 +3,35 @@
 # then run our checks against it on /repo (apply, check, revert) and store it under /verif/seeded/<PROP>-<N>/.
 set -u
 P=$1; N=$2; shift 2; CHECKS="${*:-$P}"
-W=/tmp/wt/$P; M=$W/mutants/$N; OUT=/verif/seeded/$P-$N
+WTROOT=${WTROOT:-/tmp/wt}; OFF=${OFF:-0}; ID=$P-$((N+OFF))
+W=$WTROOT/$P; M=$W/mutants/$N; OUT=/verif/seeded/$ID
 [ -f $M/patch.diff ] || { echo "no patch in $M"; exit 3; }
 cd $W && git checkout -q -- . 
 demo=$(ls $M/demo.c $M/demo.cpp 2>/dev/null | head -1)
 cc=gcc; case $demo in *.cpp) cc=g++;; esac
-builddemo() { $cc -g -I include $demo -L _build -luriparser -Wl,-rpath,$W/_build -lpthread -o /tmp/wt/demo_$P$N 2>&1 | tail -3; }
+builddemo() { $cc -g -I include $demo -L _build -luriparser -Wl,-rpath,$W/_build -lpthread -o /tmp/demo_$P$N 2>&1 | tail -3; }
 git apply --check $M/patch.diff || { echo "PATCH DOES NOT APPLY"; exit 3; }
 [ -d _build ] || cmake -G Ninja -B _build -DURIPARSER_BUILD_DOCS=OFF -DCMAKE_BUILD_TYPE=RelWithDebInfo -DGTest_DIR=/root/miniconda/lib/cmake/GTest >/dev/null 2>&1
 git apply $M/patch.diff
 cmake --build _build 2>&1 | grep -E "warning:|error" | grep -v Mainpage | head -5
 tests=$(./_build/testrunner 2>&1 | tail -1)
-builddemo; ( cd $W && timeout 120 /tmp/wt/demo_$P$N >/tmp/wt/demo_$P$N.with 2>&1 ); with=$?
+builddemo; ( cd $W && timeout 120 /tmp/demo_$P$N >/tmp/demo_$P$N.with 2>&1 ); with=$?
 git checkout -q -- .
 cmake --build _build 2>&1 | grep -E "error" | head -3
-builddemo; ( cd $W && timeout 120 /tmp/wt/demo_$P$N >/tmp/wt/demo_$P$N.without 2>&1 ); without=$?
-echo "[$P-$N] tests: $tests | demo exit with patch=$with, without=$without"
+builddemo; ( cd $W && timeout 120 /tmp/demo_$P$N >/tmp/demo_$P$N.without 2>&1 ); without=$?
+echo "[$ID] tests: $tests | demo exit with patch=$with, without=$without"
 mkdir -p $OUT && cp $M/patch.diff $OUT/ && cp $demo $OUT/ && cp $M/README.md $OUT/AGENT_README.md 2>/dev/null
 res=""
 for c in $CHECKS; do
-  o=$(cd /verif && tools/try_mutant.py --patch $P-$N $M/patch.diff $c 2>&1)
+  o=$(cd /verif && tools/try_mutant.py --patch $ID $M/patch.diff $c 2>&1)
   echo "$o" | head -8
   res="$res$(echo "$o" | head -1 | sed 's/"/'"'"'/g'); "
 done
-python3 - "$OUT" "$P" "$N" "$tests" "$with" "$without" "$res" <<'PY'
+python3 - "$OUT" "$P" "$((N+OFF))" "$tests" "$with" "$without" "$res" <<'PY'
 import json,sys
 out,p,n,tests,w,wo,res=sys.argv[1:]
 json.dump({"property":p,"mutant":int(n),"confirmed":{"existing_tests":tests.strip(),"demo_exit_with_patch":int(w),"demo_exit_without_patch":int(wo)},
  "needs_to_manifest":"see AGENT_README.md","what_we_ran":"tools/validate_seeded.sh (apply in scratch worktree, build, testrunner, demo with/without; then git -C /repo apply, ./check quick, git checkout)",
  "check_results":res},open(out+"/meta.json","w"),indent=1)
 PY
-rm -f /tmp/wt/demo_$P$N*
+rm -f /tmp/demo_$P$N*
